@@ -3,6 +3,7 @@
 cd "$(dirname "$0")"
 export GOFLAGS=-mod=mod GOPROXY=off GOSUMDB=off GOTOOLCHAIN=local
 set -x
+mkdir -p bin; (cd go2coq && go build -o ../bin/go2coq . 2>&1 | tail -5)
 (cd coq && ./mkproject.sh && timeout 7000 make -j16 2>&1 | grep -v '^Warning' | tail -20)
 for d in ocaml/C*/; do p=$(basename $d); [ -f ocaml/$p/driver.ml ] && [ -f ocaml/$p/model.ml ] && ./ocaml/build.sh $p; done
 cp /repo/go.sum harness/go.sum
